@@ -320,7 +320,8 @@ theorem runOwn_ref (hs : SubInv I mo) (hr : SubRef I f mo so) (ctx : Ctx) (hctx 
   simp only [stateOf_absL, hc, hnext, hlast, hmid, hroutes, Spec.scanEvents, Spec.chosen, Spec.candidates]
   cases hA : Spec.askHandler (StateDef.map f (m.stateOf c)) m.mid (mkView (some c) m.rt.last none) (absCtx ctx) e with
   | none =>
-    simp only [if_true, List.nil_append]
+    have hneg : ((-1 : Int) < 0) = True := by decide
+    simp only [hneg, if_true, List.nil_append]
     cases hch : List.find? (fun p => Spec.holds p.2 e)
         (List.filter (fun p => p.2.matchesEvent e) (Spec.indexed 0 (m.stateOf c).routes)) with
     | none => simp
@@ -332,7 +333,7 @@ theorem runOwn_ref (hs : SubInv I mo) (hr : SubRef I f mo so) (ctx : Ctx) (hctx 
   | some tt =>
     obtain ⟨target, t⟩ := tt
     simp only []
-    by_cases htg : target = -1
+    by_cases htg : target < 0
     · simp only [htg, if_true]
       cases hch : List.find? (fun p => Spec.holds p.2 e)
           (List.filter (fun p => p.2.matchesEvent e) (Spec.indexed 0 (m.stateOf c).routes)) with
